@@ -5,6 +5,7 @@ package c08
 import (
 	"bytes"
 	"fmt"
+	"strings"
 	"testing"
 
 	"gitlab.com/gomidi/midi/v2"
@@ -279,7 +280,7 @@ func TestEnumShortStrings(t *testing.T) {
 // ---- longer strings -----------------------------------------------------------------------
 
 var long = ev.NewCheck("C08", "strings-4-64",
-	"rapid: byte strings of length 4..64 biased to start with each status class (channel kinds, F0..F7, real-time, FF + meta type + VLQ length + payload with a declared text length <= 2^16; FF + type + a run of 1..20 continuation bytes as length field; complete frames wrapped in real-time bytes; meta events whose type byte is a status byte and whose payload ends in F7/FF; two frames glued together; runs of one byte class; universal sysex messages such as MTC full frame and MMC commands), plus every message produced by the meta constructors, by MetaUndefined(any type, payload) and by the reader on byte-level generated files; same oracle; non-trivial = first byte >= 0x80; distinct by bytes",
+	"rapid: byte strings of length 4..64 biased to start with each status class (channel kinds, F0..F7, real-time, FF + meta type + VLQ length + payload with a declared text length <= 2^16; FF + type + a run of 1..20 continuation bytes as length field; complete frames wrapped in real-time bytes; meta events whose type byte is a status byte and whose payload ends in F7/FF; two frames glued together; runs of one byte class; universal sysex messages such as MTC full frame and MMC commands; text and sequencer-data metas of 1..400 bytes made of one byte class: UTF-8 continuation bytes, lead bytes, one repeated byte, multi-byte runes cut inside a rune, ASCII), plus every message produced by the meta constructors, by MetaUndefined(any type, payload) and by the reader on byte-level generated files; same oracle; non-trivial = first byte >= 0x80; distinct by bytes",
 	func(t *rapid.T) Case {
 		var b []byte
 		frame := func() []byte {
@@ -294,7 +295,30 @@ var long = ev.NewCheck("C08", "strings-4-64",
 				return rapid.SampledFrom([][]byte{{0xF1, 0x05}, {0xF2, 0x01, 0x02}, {0xF3, 0x07}, {0xF6}, {0xF0, 0xF7}, {0xF7}, {0xF0}}).Draw(t, "sysCommonFrame")
 			}
 		}
-		switch rapid.IntRange(0, 12).Draw(t, "shape") {
+		switch rapid.IntRange(0, 13).Draw(t, "shape") {
+		case 13: // long texts made of one class of bytes (what text handling might trip over)
+			n := rapid.OneOf(rapid.IntRange(1, 80), rapid.IntRange(60, 70), rapid.IntRange(1, 400)).Draw(t, "textLen")
+			var p []byte
+			switch rapid.IntRange(0, 6).Draw(t, "textClass") {
+			case 0:
+				p = rapid.SliceOfN(rapid.ByteRange(0x80, 0xBF), n, n).Draw(t, "continuationBytes")
+			case 1:
+				p = rapid.SliceOfN(rapid.ByteRange(0xC0, 0xFF), n, n).Draw(t, "leadBytes")
+			case 2:
+				p = bytes.Repeat([]byte{rapid.SampledFrom([]byte{0x00, 0xFF, 0x80, 0xBF, 0xC0, 0x20, 0x0A}).Draw(t, "fill")}, n)
+			case 3:
+				p = []byte(strings.Repeat(rapid.SampledFrom([]string{"é", "漢", "\U0001F3B5", "a\u0301"}).Draw(t, "rune"), n/2+1))
+				p = p[:min(len(p), n)] // possibly cut inside a rune
+			case 4:
+				p = rapid.SliceOfN(rapid.ByteRange(0x20, 0x7E), n, n).Draw(t, "ascii")
+			default:
+				p = rapid.SliceOfN(rapid.Byte(), n, n).Draw(t, "anyBytes")
+			}
+			if rapid.IntRange(0, 3).Draw(t, "seqData?") == 0 && len(p) > 0 {
+				b = smf.MetaSequencerData(p)
+			} else {
+				b = textCtors[rapid.IntRange(0, len(textCtors)-1).Draw(t, "textCtor")](string(p))
+			}
 		case 12: // universal sysex messages whose content resembles other message classes
 			b = append([]byte{}, rapid.SampledFrom(live.WellKnownSysex(rapid.SampledFrom([]byte{0x7F, 0, 0x10}).Draw(t, "dev"))).Draw(t, "wellKnownSysex")...)
 		case 7: // meta-like whose length field is a long run of continuation bytes (over-long VLQ)
@@ -380,3 +404,5 @@ var fromReader = ev.NewCheck("C08", "reader-messages",
 func TestPropReaderMessages(t *testing.T) { fromReader.Rapid(t, 300, 20000) }
 
 func TestReplay(t *testing.T) { ev.ReplayAll(t) }
+
+var textCtors = []func(string) smf.Message{smf.MetaText, smf.MetaLyric, smf.MetaMarker, smf.MetaCuepoint, smf.MetaCopyright, smf.MetaInstrument, smf.MetaDevice, smf.MetaProgram, smf.MetaTrackSequenceName}
